@@ -249,6 +249,16 @@ func (in *Interp) hashUF(tag string, data []Value, outBytes int) Array {
 				for _, prev := range in.hashApps[name] {
 					in.addPC(in.tt.Eq(in.tt.Eq(prev.arg, acc), in.tt.Eq(prev.res, res)))
 				}
+				// inputs of different lengths are different inputs: their digests differ (collision freedom)
+				for other, apps := range in.hashApps {
+					if other != name && strings.HasPrefix(other, tag+"_") {
+						for _, prev := range apps {
+							if prev.res.sort == res.sort {
+								in.addPC(in.tt.Not(in.tt.Eq(prev.res, res)))
+							}
+						}
+					}
+				}
 			}
 			in.hashApps[name] = append(in.hashApps[name], hashApp{acc, res})
 		}
